@@ -10,6 +10,7 @@ import (
 	"runtime"
 	"strings"
 	"sync"
+	"time"
 
 	"github.com/freeconf/yang/meta"
 	"github.com/freeconf/yang/node"
@@ -37,7 +38,7 @@ func init() {
   list l { key k; leaf k { type string; } leaf v { type int32; default 3; } uses g; list n { key j; leaf j { type int32; } leaf u { type string; } } }
   leaf-list ll { type string; }
 }`
-	eng.Register(&c20{base{id: "C20", level: "model_checking",
+	eng.Register(&c20{base{id: "C20", level: "model_checking", sub: true,
 		rule: "part schedules: every unordered pair (thorough: also triples) of operations from the alphabet {load a module with uses and imports, JSON export, XML export, upsert from JSON, Find with query + export, delete, constrain + read, set value} runs as threads that share one compiled module but own their data; a cooperative scheduler with scheduling points at every node callback, output-stream write, opener call and reader Read explores every interleaving with at most 2 (thorough 3) preemptions; each thread's observable result (output, error, final store, dump of the module it loaded) must equal its solo result, the shared module's deep structural hash (unexported fields included) must be unchanged, and a prefix replay must reproduce its decision points. part immutability: the deep hash is compared before/after every single operation and every ordered pair run sequentially. part race: the same thread bodies run free on real goroutines in a -race build (GOMAXPROCS 1, 2 and all CPUs, repeated); any report of the race detector is a violation. states = distinct schedules, transitions = executions. Non-trivial = schedule with at least one preemption"}})
 }
 
@@ -50,6 +51,11 @@ type c20Case struct {
 }
 
 var c20Ops = []string{"load", "json", "xml", "upsert", "find", "delete", "constrain", "set"}
+
+// CaseDeadline: one scenario explores up to 400000 schedules. Cases run in worker processes
+// because a data race in the library can end in a fatal error of the Go runtime (concurrent
+// map writes), which no recover() catches.
+func (p *c20) CaseDeadline() time.Duration { return 3 * time.Hour }
 
 func (p *c20) Bounds(tier string) map[string]interface{} {
 	b := 2
